@@ -470,7 +470,72 @@ pub fn post_ops_catalog() -> Vec<Op> {
 
 // ------------------------------------------------------------------------------------------ C17
 
+/// C17 template: two graphs whose "{graph}:{relation}" shard names are related (graph `a` +
+/// relation `b_r` vs graph `a_b` + relation `r`; prefix pairs `a` / `ab`), both populated, some of
+/// the data flushed, one graph dropped (maybe re-created), restarts.
+fn c17_collision_template(seed: u64) -> Case {
+    let mut rc = Rng::new(seed, P_CFG);
+    let mut rw = Rng::new(seed, P_WORK);
+    let (x, xy, rel_x, rel_xy) = *rw.pick(&[("a", "a_b", "b_r", "r"), ("a", "a_b", "b_r", "r"), ("a", "ab", "b_r", "r"), ("x", "x_y", "y_t", "t"), ("default", "default_2", "2_r", "r")]);
+    let mut ops = Vec::new();
+    if x != "default" {
+        ops.push(Op::CreateKg { kg: x.into() });
+    }
+    ops.push(Op::CreateKg { kg: xy.into() });
+    let tup = |r: &mut Rng| gen_tuples(r, 3, 3);
+    let mut body = vec![
+        Op::Insert { kg: x.into(), rel: rel_x.into(), tuples: tup(&mut rw) },
+        Op::Insert { kg: xy.into(), rel: rel_xy.into(), tuples: tup(&mut rw) },
+    ];
+    for _ in 0..rw.range(1, 5) {
+        body.push(match rw.below(8) {
+            0 => Op::Insert { kg: x.into(), rel: rel_x.into(), tuples: tup(&mut rw) },
+            1 => Op::Insert { kg: xy.into(), rel: rel_xy.into(), tuples: tup(&mut rw) },
+            2 => Op::Insert { kg: x.into(), rel: rel_xy.into(), tuples: tup(&mut rw) },
+            3 => Op::SaveAll,
+            4 => Op::SaveKg { kg: x.into() },
+            5 => Op::SaveKg { kg: xy.into() },
+            6 => Op::CompactAll,
+            _ => Op::Delete { kg: x.into(), rel: rel_x.into(), tuples: tup(&mut rw) },
+        });
+    }
+    // seeded shuffle (the two base inserts stay in the list, order varies)
+    for i in (1..body.len()).rev() {
+        let j = rw.below(i as u64 + 1) as usize;
+        body.swap(i, j);
+    }
+    ops.extend(body);
+    if rw.chance(1, 4) {
+        ops.push(Op::Restart);
+    }
+    let dropped = if x != "default" && rw.chance(1, 3) { x } else { xy };
+    let kept = if dropped == x { xy } else { x };
+    ops.push(Op::DropKg { kg: dropped.into() });
+    for _ in 0..rw.below(3) {
+        ops.push(match rw.below(5) {
+            0 => Op::Insert { kg: kept.into(), rel: "z".into(), tuples: tup(&mut rw) },
+            1 => Op::SaveKg { kg: kept.into() },
+            2 => Op::CreateKg { kg: dropped.into() },
+            3 => Op::Insert { kg: dropped.into(), rel: rel_xy.into(), tuples: tup(&mut rw) },
+            _ => Op::Probe,
+        });
+    }
+    ops.push(Op::Restart);
+    if rw.chance(1, 2) {
+        ops.push(Op::CreateKg { kg: dropped.into() });
+        ops.push(Op::Restart);
+    }
+    let mut cfg = swarm_cfg(&mut rc, true);
+    if rw.chance(1, 2) {
+        cfg.buffer_size = *rw.pick(&[1usize, 2, 3]);
+    }
+    Case { seed, cfg, ops, check_model: true, ..Default::default() }
+}
+
 pub fn c17_history(seed: u64) -> Case {
+    if seed % 4 == 3 {
+        return c17_collision_template(seed);
+    }
     let mut rc = Rng::new(seed, P_CFG);
     let mut rw = Rng::new(seed, P_WORK);
     let mut mix = Mix::data_only();
@@ -543,16 +608,26 @@ pub fn c15_persist(seed: u64) -> ConcCase {
     let mut rc = Rng::new(seed, P_CFG);
     let mut rw = Rng::new(seed, P_WORK);
     let nthreads = rw.range(2, 3) as usize;
-    let shards = if rw.chance(1, 2) { vec!["k:r".to_string()] } else { vec!["k:r".to_string(), "k:s".to_string()] };
+    // every third case is about the WAL-size limit: nothing is flushed by the buffer, a few appends
+    // push the log over a small limit, which flushes *all* dirty shards while other threads append
+    let wal_limit_mode = seed % 3 == 0;
+    let shards = if wal_limit_mode {
+        vec!["k:r".to_string(), "k:s".to_string(), "k:t".to_string()]
+    } else if rw.chance(1, 2) {
+        vec!["k:r".to_string()]
+    } else {
+        vec!["k:r".to_string(), "k:s".to_string()]
+    };
     let mut time = 1u64;
     let mut threads = Vec::new();
     for tid in 0..nthreads {
-        let n = rw.range(1, 3) as usize;
+        let n = if wal_limit_mode { rw.range(2, 4) as usize } else { rw.range(1, 3) as usize };
         let mut ops = Vec::new();
         let mut mine: Vec<(String, T)> = Vec::new();
         for k in 0..n {
             let shard = rw.pick(&shards).clone();
-            match rw.below(10) {
+            let x = if wal_limit_mode && rw.chance(2, 3) { 0 } else { rw.below(10) };
+            match x {
                 0..=4 => {
                     let cnt = rw.range(1, 2) as usize;
                     let mut ups = Vec::new();
@@ -580,6 +655,10 @@ pub fn c15_persist(seed: u64) -> ConcCase {
     }
     let mut cfg = swarm_cfg(&mut rc, true);
     cfg.buffer_size = *rc.pick(&[1usize, 2, 3, 10000]);
+    if wal_limit_mode {
+        cfg.buffer_size = *rc.pick(&[10000usize, 10000, 4]);
+        cfg.max_wal = *rc.pick(&[150u64, 300, 300, 500, 700]);
+    }
     cfg.num_threads = 1;
     let mut rs = Rng::new(seed, 9);
     ConcCase { seed, cfg, level: "persist".into(), setup: vec![], threads, sched: Some(gen_sched(&mut rs, nthreads)), sched_seed: rs.next(), ..Default::default() }
@@ -606,6 +685,8 @@ pub fn conc_engine(seed: u64, flavour: u64) -> ConcCase {
         setup.push(COp::RegisterRule { kg: kg.clone(), text: "d(X, Y) <- r(X, Y)".into() });
     }
     let nthreads = rw.range(2, 3) as usize;
+    // every fifth reader/writer case is about very large batches (chunked application, bulk paths)
+    let big_mode = flavour == 1 && rw.chance(1, 5);
     let mut threads = Vec::new();
     let mut fresh = 100;
     for tid in 0..nthreads {
@@ -644,7 +725,14 @@ pub fn conc_engine(seed: u64, flavour: u64) -> ConcCase {
                 (_, 0..=6) => {
                     // insert: overlapping tuples or a fresh multi-tuple batch
                     let tuples = if flavour == 1 || rw.chance(1, 2) {
-                        let k = rw.range(2, 3);
+                        // 2-3 fresh tuples; now and then a batch beyond the size thresholds of bulk paths
+                        let k = if flavour == 1 && big_mode && rw.chance(1, 2) {
+                            *rw.pick(&[1025u64, 1100, 2050, 3100])
+                        } else if flavour == 1 && rw.chance(1, 12) {
+                            *rw.pick(&[33u64, 130, 1025])
+                        } else {
+                            rw.range(2, 3)
+                        };
                         (0..k)
                             .map(|_| {
                                 fresh += 1;
@@ -957,11 +1045,13 @@ pub fn c10_case(seed: u64) -> HCase {
         match rw.below(34) {
             0..=4 => {
                 let k = rw.range(1, 2);
-                let tuples: Vec<T> = (0..k).map(|_| own(&mut rw)).collect();
+                // mostly the session's own value range; sometimes a tuple that is (or may later be, or
+                // stop being) stored persistently as well - the session must keep seeing its own copy
+                let tuples: Vec<T> = (0..k).map(|_| if rw.chance(1, 4) { t64(rw.range(1, 3) as i64, rw.range(2, 4) as i64) } else { own(&mut rw) }).collect();
                 ops.push(HOp::SessInsert { slot, rel: rw.pick(&["f", "g"]).to_string(), tuples });
             }
             5 => {
-                let t = own(&mut rw);
+                let t = if rw.chance(1, 3) { t64(rw.range(1, 3) as i64, rw.range(2, 4) as i64) } else { own(&mut rw) };
                 ops.push(HOp::SessRetract { slot, rel: "f".into(), tuples: vec![t] });
             }
             6..=7 => ops.push(HOp::SessAddRule { slot, text: rw.pick(SESSION_RULES).to_string() }),
@@ -986,7 +1076,7 @@ pub fn c10_case(seed: u64) -> HCase {
             19 => {
                 let k = pick_kg(&mut rw);
                 let off = if k == "k2" { 5000 } else { 0 };
-                let t = t64(off + rw.range(1, 5) as i64, off + rw.range(1, 5) as i64);
+                let t = if rw.chance(1, 2) { t64(off + rw.range(1, 3) as i64, off + rw.range(2, 4) as i64) } else { t64(off + rw.range(1, 5) as i64, off + rw.range(1, 5) as i64) };
                 if rw.chance(1, 2) {
                     ops.push(HOp::Program { kg: k, text: format!("+f{}", tuple_lit(&t)), effect: Effect::Insert { rel: "f".into(), tuples: vec![t] } });
                 } else {
@@ -1002,7 +1092,7 @@ pub fn c10_case(seed: u64) -> HCase {
             }
             24..=25 => {
                 // a fact statement without '+' sent over the session = ephemeral fact of that session
-                let t = own(&mut rw);
+                let t = if rw.chance(1, 4) { t64(rw.range(1, 3) as i64, rw.range(2, 4) as i64) } else { own(&mut rw) };
                 let rel = rw.pick(&["f", "g"]).to_string();
                 ops.push(HOp::SessExec { slot, text: format!("{rel}{}", tuple_lit(&t)), effect: Effect::None, clears_session: false, seffect: SEffect::AddFact { rel, tuple: t } });
             }
